@@ -333,6 +333,13 @@ if "C15" in CLAIMED and _has("C15poll") and _has("C15epoll"):
                                "against `ivyreplay fdpoll|fdepoll`, with an independent reference for replays. Also enumerated: one descriptor number offered to two "
                                "iv_fd objects (accepted by poll/ppoll, refused by the epoll methods; the first keeps being served).")
 
+if "C04" in CLAIMED and _has("C04time"):
+    CLAIMED["C04"]["text"] += (" Extension (Ivy/Props/C04time.lean, 58 theorems): the loop's time arithmetic modelled statement by statement (timespec_gt, to_relative, "
+                               "to_msec, the cached clock, the timer descriptor's arm value): to_msec is the least millisecond count >= the remaining time (never early, "
+                               "< 1 ms late, in [-1, 86400000]), to_relative = max 0 (abs - now) without 64-bit overflow for |sec| < 2^62, the ms and ns wait primitives "
+                               "agree up to rounding, a sleep of the returned length makes the timer due, the clock is read at most once per invalidation; tied by a "
+                               "differential run of the real inline functions (harness/timearith_h.c) with an exact-integer reference.")
+
 NOT_YET = "check not built yet in this round; planned per DESIGN.md §7 (Lean model + theorems + correspondence)"
 
 checks = []
